@@ -103,6 +103,10 @@ func (s *ShardedIndex) locateShard(key []byte) (index, *sync.RWMutex) {
 }
 
 func nextPowerOfTwo(cap int) int {
+	// 分片数量至少为 1, 否则 locateShard 会越界访问空的分片数组
+	if cap < 1 {
+		return 1
+	}
 	n := cap - 1
 	n |= n >> 1
 	n |= n >> 2
